@@ -121,6 +121,7 @@ class D(Driver):
         ("picosvg.svg_types", "SVGShape.almost_equals"),
     )
     deciding_monitors = ("affine_between",)
+    feature_floors = {"affine_between.ok": 400}
     nt_floor = {"quick": 500, "thorough": 8000}
     time_budget = {"quick": 120, "thorough": 900}
 
